@@ -131,8 +131,22 @@ pub(super) fn graph_json(
                 tied.push(e.source().index());
             }
         }
+        // The dependencies of this node in the order `neighbors_directed(_, Incoming)` yields them
+        // (the adjacency list, most recently added edge first): `complex_borrow_check` visits them in this order.
+        let inadj: Vec<String> = call_graph
+            .edges_directed(node_index, Direction::Incoming)
+            .map(|e| {
+                let k = match e.weight() {
+                    CallGraphEdgeMetadata::Move => "move",
+                    CallGraphEdgeMetadata::SharedBorrow => "shared",
+                    CallGraphEdgeMetadata::ExclusiveBorrow => "excl",
+                    CallGraphEdgeMetadata::HappensBefore => "before",
+                };
+                format!("[{},\"{}\"]", e.source().index(), k)
+            })
+            .collect();
         nodes.push(format!(
-            "{{\"i\":{},\"kind\":\"{}\",\"label\":\"{}\",\"out\":\"{}\",\"copy\":{},\"ref\":{},\"cloneable\":{},\"tied\":{:?},\"direct\":{:?}}}",
+            "{{\"i\":{},\"kind\":\"{}\",\"label\":\"{}\",\"out\":\"{}\",\"copy\":{},\"ref\":{},\"cloneable\":{},\"tied\":{:?},\"direct\":{:?},\"inadj\":[{}]}}",
             node_index.index(),
             kind,
             esc(&label),
@@ -141,7 +155,8 @@ pub(super) fn graph_json(
             is_ref,
             cloneable,
             tied,
-            direct
+            direct,
+            inadj.join(",")
         ));
     }
     let mut edges = Vec::new();
